@@ -166,6 +166,8 @@ def check_frames(case):
             if f.shape[1] != m or len(obs.frame_cols(f)) != m:
                 raise Failure('out-of-step', '%s: %d column labels for %d data columns' % (what, m, f.shape[1]))
             for lab in list(f.columns):
+                if is_missing(lab) or (isinstance(lab, tuple) and any(is_missing(x) for x in lab)):
+                    continue  # NaN labels (reachable through set_index/transpose of float data) are outside the claim
                 r = lib(lambda: f[lab])
                 if isinstance(r, Raised):
                     raise Failure('unreadable', '%s: column %r unreadable: %r' % (what, lab, r.exc), r.where)
@@ -624,8 +626,8 @@ def tag(case, f):
 
 
 SUBS = [
-    Sub('frame_history', frame_cases(14), check_frames, quick=1200, thorough=64000, tag=tag, thorough_strategy=frame_cases(30),
+    Sub('frame_history', frame_cases(14), check_frames, quick=4800, thorough=64000, tag=tag, thorough_strategy=frame_cases(30),
         rule='FrameGO growth/derivation/read histories; snapshot invariants after every step'),
-    Sub('index_history', index_cases(), check_index_history, quick=1500, thorough=48000,
+    Sub('index_history', index_cases(), check_index_history, quick=6000, thorough=48000,
         rule='IndexGO append/extend histories vs list model; rejected growth leaves the index unchanged'),
 ]
